@@ -749,6 +749,10 @@ void SchemaValidator::validateElement(const   XMLElementDecl*  elemDef)
         fErrorOccurred = true;
     }
 
+    // The presence of xsi:nil has been dealt with for this element; it
+    // must not be taken for an attribute of the element's children
+    fNilFound = false;
+
     fDatatypeBuffer.reset();
     fTrailing = false;
     fSeenNonWhiteSpace = false;
